@@ -46,7 +46,19 @@ EXTRA = [
     _c("AROON4", "aroon", period=4),
     _c("ROC1", "ROC", period=1),
 ]
-for _x in EXTRA:
+# library defaults (and other larger periods), run on a fixed 44-candle pre-amble followed by an exhaustive suffix
+DEFAULTS = [
+    _c("SMA10d", "SMA", period=10), _c("EMA10d", "EMA", period=10), _c("RMA10d", "RMA", period=10), _c("WMA10d", "WMA", period=10),
+    _c("VWMA10d", "VWMA", period=10), _c("HMA10d", "HMA", period=10), _c("HMA16d", "HMA", period=16),
+    _c("TRd", "TR"), _c("ATR14d", "ATR", period=14), _c("STDEV30d", "STDEV", period=30), _c("BBANDS5d", "BBANDS", period=5),
+    _c("KC20d", "KC", period=20, multiplier=2.0), _c("DON20d", "donchian", period=20), _c("HL100d", "HL", period=100),
+    _c("ST7d", "Supertrend", period=7, multiplier=3.0), _c("STDEVTHRES10d", "STDEVTHRES", period=10, multiplier=2.0),
+    _c("RSI14d", "RSI", period=14), _c("MACDd", "MACD", fast_period=12, slow_period=26, signal_period=9), _c("ROC10d", "ROC", period=10),
+    _c("STOCH14d", "STOCH", period=14, slow_period=3, smoothing_k=3), _c("TSI25d", "TSI", period=25), _c("AROON14d", "aroon", period=14),
+    _c("ADX14d", "ADX", period=14, period_signal=14), _c("OBVd", "OBV"), _c("VWAP10d", "VWAP", period=10),
+]
+PREAMBLE44 = "UDJLHVUJDLFUVJHDULJZHUDVLJUHDJLVUFHJDLUVJHZD"
+for _x in EXTRA + DEFAULTS:
     BY_LABEL[_x["label"]] = _x
 HAS_INPUT = {"SMA", "EMA", "RMA", "WMA", "HMA", "STDEV", "BBANDS", "KC", "STDEVTHRES", "RSI", "MACD", "ROC", "TSI"}
 
@@ -180,6 +192,8 @@ def xseries(raw, placement):
 
 
 def placements(cfg, tier):
+    if cfg["label"].endswith("d") and cfg in DEFAULTS:
+        return [("field", "close")] + ([("late", 3)] if cfg["cls"] in HAS_INPUT else [])
     if cfg["cls"] not in HAS_INPUT:
         return [("field", "close")]
     ks = (1, 2, 3) if tier == "quick" else (1, 2, 3, 5)
@@ -231,12 +245,13 @@ FINE = {"tick": 0.123457, "offset": 0.000013, "base": A._BASES[0], "rot": 0, "vo
 
 def explore(item):
     prop, tier, label, first, sigma, n = item[:6]
-    fine = len(item) > 6 and item[6]
+    fine = len(item) > 6 and item[6] is True
+    pre = PREAMBLE44 if (len(item) > 6 and item[6] == "pre") else ""
     cfg = BY_LABEL[label]
     rep = Report()
     hz = 4.0 if tier == "quick" else 10.0
     for tail in A.words(sigma, n - 1):
-        word = first + tail
+        word = pre + first + tail
         raw = raw_stream(word, var=FINE) if fine else raw_stream(word)
         for pl in placements(cfg, tier):
             one(prop, rep, cfg, word, raw, pl, hz)
@@ -289,6 +304,9 @@ def main(prop, tier):
             items.append((prop, tier, cfg["label"], f, "UDF" if f in "UDF" else "JVF"[:3], n + 3 if tier == "quick" else n + 4))
             # the same words on a price scale with more decimals than any rounding setting keeps
             items.append((prop, tier, cfg["label"], f, sigma[:4] if tier == "quick" else sigma, n, True))
+    for cfg in [c for c in DEFAULTS if c["cls"] in GROUPS[prop]]:
+        for f in "UDFJ":
+            items.append((prop, tier, cfg["label"], f, "UDFJ", 3 if tier == "quick" else 5, "pre"))
     reps = pmap(explore, items)
     if prop == "C04":
         reps.append(chain_check(prop, tier))
@@ -302,7 +320,7 @@ def main(prop, tier):
             "interval-valued reference written from the definitions; non-trivial = distinct (config, placement, word) with at least one "
             "comparison against a tight interval (width <= 0.011) or an exact discrete value")
     return finish(prop, tier, rep, t0, rule=rule,
-                  bounds={"sigma": sigma, "n": n, "configs": [c["label"] for c in cfgs], "variant": A.variant(), "fine_price_scale": FINE["tick"]},
+                  bounds={"sigma": sigma, "n": n, "configs": [c["label"] for c in cfgs], "default_period_configs": [c["label"] for c in DEFAULTS if c["cls"] in GROUPS[prop]], "preamble": PREAMBLE44, "variant": A.variant(), "fine_price_scale": FINE["tick"]},
                   replay_confirm=replay,
                   assumptions=["helper series are stored at 4 decimals, top-level readings at round_value",
                                "undefined quotients and undecidable comparisons are skipped (counted in skipped_undefined)"])
